@@ -489,7 +489,12 @@ def sim_gates():
 
 def pol_stall_write(rng):
     """A worker that has read a tile is not allowed to write it back while anything else can run."""
-    return simrun._prefer(rng, lambda c: False, lambda c: c[1][0] == "tile_write", p=0.9)
+    def choose(en):
+        rest = [i for i, c in enumerate(en) if c[1][0] != "tile_write"]
+        if rest and rng.random() < 0.9:
+            return rng.choice(rest)
+        return rng.randrange(len(en))
+    return choose
 
 
 def pol_stall_unlocked(rng):
@@ -746,7 +751,7 @@ def probe_cdelt_mixed(d):
             proc.compute_global_pixelization(builder.Builder(pyramid.PyramidIO(os.path.join(d, "o"), default_format="fits")))
             out["+".join(pars)] = "accepted"
         except Exception as e:  # noqa
-            out["+".join(pars)] = "refused: %s" % (str(e)[:120],)
+            out["+".join(pars)] = "refused: %s" % (str(e).replace(d + os.sep, "")[:140],)
     return {"what": "two files of one grid whose WCS uses CDELT/PC keywords (not a CD matrix)", "outcome": out}
 
 
@@ -777,6 +782,43 @@ def _noop(_):
     return os.getpid()
 
 
+def report(ctx, res):
+    for sev, key, msg, rep in res:
+        if sev == "M":
+            ctx.machinery(msg + " %s" % (rep,))
+        elif sev == "V":
+            ctx.violation(key, msg, rep)
+        else:
+            ctx.drift(msg)
+
+
+def replay_only(ctx):
+    """--replay FILE: re-run the recorded (decomposition, order, parities, run); TLC computes its expectation afresh."""
+    rec = (json.load(open(ctx.replay_path)).get("replay") or {})
+    if "a" in rec and "b" in rec:
+        case = rec["case"]
+        todo = [(rec["a"][0], [rec["a"][1]]), (rec["b"][0], [rec["b"][1]])]
+    elif "subs" in rec:
+        case = dict(rec["case"], subs=rec["subs"])
+        todo = [(dict(perm=rec["order"], pars=rec["parities"]), [rec.get("run") or dict(fmt="fits", mode="serial")])]
+    else:
+        ctx.machinery("replay file %s carries no case" % ctx.replay_path)
+    recs = [file_records(case, var["perm"], var["pars"]) for var, _runs in todo]
+    outp = os.path.join(ctx.scratch, "real.json")
+    ctx.tlc("MCReal", extra={"MCReal.tla": real_module(recs)}, cfg_text=REAL_CFG, env={"OUT": outp}, workers=1, timeout=3000, count=False)
+    exps = json.load(open(outp))
+    digests = []
+    for (var, runs), exp in zip(todo, exps):
+        res, info = replay_group((case, var, exp, runs, ctx.scratch))
+        report(ctx, res)
+        ctx.count(info["nrun"] + info["single"])
+        ctx.trace_ok(info["nrun"])
+        digests += list(info["digests"].values())
+    if len(todo) == 2 and case["agree"] and len(set(digests)) > 1:
+        ctx.violation("C09:multi_tan:order-parity-workers", "the two recorded runs of one decomposition give different deepest-level tiles", rec)
+    ctx.note("replayed_case", {"mosaic": [case["W"], case["H"]], "runs": [r for _v, runs in todo for r in runs]})
+
+
 def run(ctx):
     repo.setup(ctx)
     import multiprocessing as mp
@@ -792,6 +834,8 @@ def run(ctx):
                 "compared with TLC's expectation and with the real single-image tiling of the pasted mosaic. distinct = distinct "
                 "(decomposition, order, parities, tile format, mode, schedule); non-trivial = at least two inputs share a tile")
     ctx.note("filelock_version", getattr(filelock, "__version__", "?"))
+    if ctx.replay_path:
+        return replay_only(ctx)
 
     # ---- the pool is forked before this process has threads
     pool = cf.ProcessPoolExecutor(max_workers=8, mp_context=mp.get_context("fork"))
@@ -894,13 +938,7 @@ def run(ctx):
     for i, (case, var, exp, runs, _s) in enumerate(tasks):
         res, info = results[i]
         ci = groups[i][0]
-        for sev, key, msg, rep in res:
-            if sev == "M":
-                ctx.machinery(msg + " %s" % (rep,))
-            elif sev == "V":
-                ctx.violation(key, msg, rep)
-            else:
-                ctx.drift(msg)
+        report(ctx, res)
         ctx.count(info["nrun"] + info["single"])
         ctx.trace_ok(info["nrun"])
         shared = len({(x[0], y[0]) for ins in exp["ins"] for x in ins["xs"] for y in ins["ys"]}) < sum(len(ins["xs"]) * len(ins["ys"]) for ins in exp["ins"])
